@@ -28,10 +28,18 @@ def gen_instance(rng, maxvars):
                 if not any(u in v for v in V):
                     V[rng.randrange(nV)].append(u)
         inst = {"U": U, "V": V, "weights": None, "log_trick": rng.random() < 0.5}
-        if rng.random() < 0.3:
-            w = [rng.choice([1, 0.5]) for _ in V]
+        if rng.random() < 0.45:
+            w = [rng.choice([1, 0.5, 0.25]) for _ in V]
             w[rng.randrange(nV)] = 1
             inst["weights"] = w
+            if rng.random() < 0.4 and nU >= 2:
+                # one expensive set that covers everything next to a cheap partition: the optimum uses MORE sets
+                cut = rng.randint(1, nU - 1)
+                inst["V"] = [list(U), list(U[:cut]), list(U[cut:])]
+                inst["weights"] = [1, rng.choice([0.25, 0.5]), 0.25]
+                rot = rng.randrange(3)
+                inst["V"] = inst["V"][rot:] + inst["V"][:rot]
+                inst["weights"] = inst["weights"][rot:] + inst["weights"][:rot]
         weights = rng.choice(["default", "strict", "strict2"])
         A, B = {"default": (2, 1), "strict": (3, 2), "strict2": (2.5, 2)}[weights]
         return {"cls": cls, "inst": inst, "A": A, "B": B, "strict": True, "default": weights == "default"}
@@ -71,9 +79,10 @@ def gen_instance(rng, maxvars):
         A = B * sum(abs(v) for v in c) + rng.choice([0.5, 1])
         return {"cls": cls, "inst": {"c": c, "S": S, "b": b}, "A": A, "B": B, "strict": True, "default": False}
     if cls == "JobSequencing":
-        nj = rng.randint(1, 3)
+        m = 3 if rng.random() < 0.35 else 2          # three workers: also more workers than jobs
+        nj = rng.randint(1, 2) if m == 3 else rng.randint(1, 3)
         lengths = [rng.randint(1, 2) for _ in range(nj)]
-        inst = {"lengths": lengths, "m": 2, "log_trick": rng.random() < 0.5}
+        inst = {"lengths": lengths, "m": m, "log_trick": rng.random() < 0.5}
         mode = rng.choice(["default", "strict"])
         B = 1 if mode == "default" else rng.choice([1, 2])
         A = None if mode == "default" else B * max(lengths) + 1
@@ -240,8 +249,8 @@ def run_case(case, cid, maxvars):
             fr = [common.frac(v) for _, v in terms] + [common.frac(case["B"])]
             wden = 1
             if cls == "SetCover" and inst["weights"] is not None:
-                wden = 2
-            den = max(common.common_den(fr), 2)
+                wden = max(Fraction(x).limit_denominator(8).denominator for x in inst["weights"])
+            den = max(common.common_den(fr), 2, wden)
             rec.update({"n": n, "np": npv, "spinform": spinform, "den": den,
                         "terms": [[[int(x) for x in k], common.to_int(common.frac(v), den)] for k, v in terms],
                         "B": common.to_int(common.frac(case["B"]) * Fraction(1, wden), den), "tab": tab,
@@ -252,7 +261,7 @@ def run_case(case, cid, maxvars):
                 ui = {u: i for i, u in enumerate(Ul)}
                 w = inst["weights"] or [1] * len(inst["V"])
                 rec["inst"] = {"U": list(range(len(Ul))), "V": [[ui[x] for x in v] for v in inst["V"]],
-                               "weights": [int(Fraction(x).limit_denominator(4) * wden) for x in w]}
+                               "weights": [int(Fraction(x).limit_denominator(8) * wden) for x in w]}
             elif cls in ("VertexCover", "GraphPartitioning"):
                 rec["inst"] = {"edges": rec_edges}
             elif cls == "BILP":
